@@ -541,6 +541,38 @@ def desugar_adaptor_next(rec, prog, stats):
     return False
 
 
+def _const_elems(rec, prog, local, visited=None):
+    """elements of a literal array reached through re-borrows / unsizing from a promoted constant (`&[0xd3]`), as const operands; else None"""
+    cur = local
+    for _ in range(6):
+        d = _single_def(rec, cur)
+        if d is None or d[0] != "stmt":
+            return None
+        if visited is not None:
+            visited.append(d)
+        rv = d[3]["rv"]
+        if rv["k"] == "ref" and [x["k"] for x in rv["place"]["proj"]] in ([], ["deref"]):
+            cur = rv["place"]["local"]
+            continue
+        if rv["k"] == "cast" and str(rv.get("kind", "")).startswith("PointerCoercion") and rv["op"]["k"] in ("move", "copy") and not rv["op"]["place"]["proj"]:
+            cur = rv["op"]["place"]["local"]
+            continue
+        if rv["k"] == "use" and rv["op"]["k"] in ("move", "copy") and not rv["op"]["place"]["proj"]:
+            cur = rv["op"]["place"]["local"]
+            continue
+        if rv["k"] == "use" and rv["op"]["k"] == "const" and rv["op"].get("ck") == "promoted":
+            pr = prog.promoted.get(rv["op"].get("s"))
+            prec = pr if isinstance(pr, dict) else getattr(pr, "rec", None)
+            if not prec or len(prec["blocks"]) != 1:
+                return None
+            arrs = [st for st in prec["blocks"][0]["stmts"] if st["k"] == "assign" and st["rv"]["k"] == "aggregate" and st["rv"].get("agg") == "array"]
+            if len(arrs) != 1 or not all(o["k"] == "const" and "val" in o for o in arrs[0]["rv"]["ops"]):
+                return None
+            return [copy.deepcopy(o) for o in arrs[0]["rv"]["ops"]]
+        return None
+    return None
+
+
 def desugar(rec, prog, stats):
     """(1) (lo..=hi).contains(&x) / (lo..hi).contains(&x) with constant bounds  ->  (lo <= x) & (x <= hi | x < hi)
        (2) opt.ok_or(e)?   ->   match opt { Some(v) => v, None => return Err(e) }     (same error type only)"""
@@ -663,6 +695,89 @@ def desugar(rec, prog, stats):
             stats.setdefault(rec["path"], []).append("desugar:" + c.rsplit("::", 1)[1])
             changed = True
             continue
+        m_ = re.fullmatch(r"core::convert::num::<impl core::convert::From<(u8|u16|u32|i8|i16|i32|bool|char)> for (u16|u32|u64|u128|usize|i16|i32|i64|i128|isize)>::from", c or "")
+        if m_ and len(t["args"]) == 1 and not t["dest"]["proj"]:
+            # uN::from(x) for a lossless widening: the cast `x as uN`
+            blk["stmts"] = list(blk["stmts"]) + [{"k": "assign", "place": copy.deepcopy(t["dest"]),
+                                                  "rv": {"k": "cast", "kind": "IntToInt", "op": copy.deepcopy(t["args"][0]), "ty": rec["locals"][t["dest"]["local"]]}, "line": t.get("line")}]
+            blk["term"] = {"k": "goto", "target": t["target"]}
+            stats.setdefault(rec["path"], []).append("desugar:From-widening")
+            changed = True
+            continue
+        if re.fullmatch(r"core::num::<impl (usize|u8|u16|u32|u64)>::checked_sub", c or "") and len(t["args"]) == 2 and not t["dest"]["proj"]:
+            # a.checked_sub(b)  ->  if a >= b { Some(a - b) } else { None }        (the subtraction cannot wrap under the test)
+            a_, b_ = t["args"]
+            dty = rec["locals"][t["dest"]["local"]]
+            if dty.get("k") == "adt" and dty.get("args"):
+                line = t.get("line")
+                n = len(rec["locals"])
+                rec["locals"].extend([BOOL, dty["args"][0]])
+                nb = len(rec["blocks"])
+                blk["stmts"] = list(blk["stmts"]) + [{"k": "assign", "place": {"local": n, "proj": []}, "rv": {"k": "binop", "op": "Ge", "a": copy.deepcopy(a_), "b": copy.deepcopy(b_)}, "line": line}]
+                blk["term"] = {"k": "switch", "discr": {"k": "move", "place": {"local": n, "proj": []}}, "dty": BOOL, "arms": [[0, nb + 1]], "otherwise": nb, "line": line}
+                rec["blocks"].append({"stmts": [
+                    {"k": "assign", "place": {"local": n + 1, "proj": []}, "rv": {"k": "binop", "op": "Sub", "a": copy.deepcopy(a_), "b": copy.deepcopy(b_)}, "line": line},
+                    {"k": "assign", "place": copy.deepcopy(t["dest"]),
+                     "rv": {"k": "aggregate", "agg": "adt", "path": "core::option::Option", "variant": 1, "vname": "Some", "args": dty["args"], "is_enum": True,
+                            "ops": [{"k": "move", "place": {"local": n + 1, "proj": []}}]}, "line": line}], "term": {"k": "goto", "target": t["target"]}})
+                rec["blocks"].append({"stmts": [
+                    {"k": "assign", "place": copy.deepcopy(t["dest"]),
+                     "rv": {"k": "aggregate", "agg": "adt", "path": "core::option::Option", "variant": 0, "vname": "None", "args": dty["args"], "is_enum": True, "ops": []}, "line": line}],
+                    "term": {"k": "goto", "target": t["target"]}})
+                stats.setdefault(rec["path"], []).append("desugar:checked_sub")
+                changed = True
+                continue
+        if c == "core::slice::<impl [T]>::starts_with" and len(t["args"]) == 2 and not t["dest"]["proj"] and all(a_["k"] in ("move", "copy") and not a_["place"]["proj"] for a_ in t["args"]):
+            # s.starts_with(&[c0]) with a literal one-element needle  ->  if s.len() >= 1 { s[0] == c0 } else { false }
+            chain_ = []
+            needle = _const_elems(rec, prog, t["args"][1]["place"]["local"], chain_)
+            sl = t["args"][0]["place"]["local"]
+            sty = rec["locals"][sl]
+            if needle is not None and len(needle) == 1 and sty.get("k") == "ref" and sty.get("to", {}).get("k") == "slice":
+                line = t.get("line")
+                n = len(rec["locals"])
+                usz = {"k": "uint", "bits": 64, "name": "usize"}
+                rec["locals"].extend([usz, BOOL, sty["to"]["elem"]])
+                nb = len(rec["blocks"])
+                blk["stmts"] = list(blk["stmts"]) + [
+                    {"k": "assign", "place": {"local": n, "proj": []}, "rv": {"k": "len", "place": {"local": sl, "proj": [{"k": "deref"}]}}, "line": line},
+                    {"k": "assign", "place": {"local": n + 1, "proj": []}, "rv": {"k": "binop", "op": "Ge", "a": {"k": "move", "place": {"local": n, "proj": []}},
+                                                                                 "b": {"k": "const", "ty": usz, "bits": 1, "val": 1, "size": 8}}, "line": line}]
+                blk["term"] = {"k": "switch", "discr": {"k": "move", "place": {"local": n + 1, "proj": []}}, "dty": BOOL, "arms": [[0, nb + 1]], "otherwise": nb, "line": line}
+                rec["blocks"].append({"stmts": [
+                    {"k": "assign", "place": {"local": n + 2, "proj": []},
+                     "rv": {"k": "use", "op": {"k": "copy", "place": {"local": sl, "proj": [{"k": "deref"}, {"k": "constindex", "offset": 0, "min_length": 1, "from_end": False, "ty": sty["to"]["elem"]}]}}}, "line": line},
+                    {"k": "assign", "place": copy.deepcopy(t["dest"]), "rv": {"k": "binop", "op": "Eq", "a": {"k": "move", "place": {"local": n + 2, "proj": []}}, "b": copy.deepcopy(needle[0])}, "line": line}],
+                    "term": {"k": "goto", "target": t["target"]}})
+                rec["blocks"].append({"stmts": [{"k": "assign", "place": copy.deepcopy(t["dest"]), "rv": {"k": "use", "op": {"k": "const", "ty": BOOL, "bits": 0, "val": 0, "size": 1}}, "line": line}],
+                                      "term": {"k": "goto", "target": t["target"]}})
+                # the needle's construction (promoted constant, re-borrows, unsizing) fed only this call
+                if all(_uses_of(rec, d_[3]["place"]["local"]) <= 2 for d_ in chain_):
+                    for d_ in chain_:
+                        rec["blocks"][d_[1]]["stmts"] = [x_ for x_ in rec["blocks"][d_[1]]["stmts"] if x_ is not d_[3]]
+                stats.setdefault(rec["path"], []).append("desugar:starts_with")
+                changed = True
+                continue
+        if c == "core::mem::replace" and len(t["args"]) == 2 and not t["dest"]["proj"] and t["args"][0]["k"] in ("move", "copy") \
+                and not t["args"][0]["place"]["proj"]:
+            # old = mem::replace(&mut place, v)  ->  old = *r; *r = v       (scalars only: a plain load and store)
+            rl = t["args"][0]["place"]["local"]
+            rty = rec["locals"][rl]
+            if rty.get("k") == "ref" and rty.get("to", {}).get("k") in ("bool", "uint", "int", "char", "float"):
+                line = t.get("line")
+                tgt = {"local": rl, "proj": [{"k": "deref"}]}
+                d = _single_def(rec, rl)
+                if d is not None and d[0] == "stmt" and d[1] == bi and d[3]["rv"]["k"] == "ref" and _uses_of(rec, rl) == 2:
+                    # the borrow was made for this call only: address the place itself
+                    tgt = copy.deepcopy(d[3]["rv"]["place"])
+                    blk["stmts"] = [x for x in blk["stmts"] if x is not d[3]]
+                blk["stmts"] = list(blk["stmts"]) + [
+                    {"k": "assign", "place": copy.deepcopy(t["dest"]), "rv": {"k": "use", "op": {"k": "copy", "place": copy.deepcopy(tgt)}}, "line": line},
+                    {"k": "assign", "place": copy.deepcopy(tgt), "rv": {"k": "use", "op": copy.deepcopy(t["args"][1])}, "line": line}]
+                blk["term"] = {"k": "goto", "target": t["target"]}
+                stats.setdefault(rec["path"], []).append("desugar:mem::replace")
+                changed = True
+                continue
         if c in ("core::result::Result::<T, E>::map_or", "core::option::Option::<T>::map_or") and len(t["args"]) == 3 \
                 and t["args"][0]["k"] in ("move", "copy") and not t["args"][0]["place"]["proj"] and not t["dest"]["proj"]:
             # r.map_or(d, f)  ->  match r { Ok(v) | Some(v) => f(v), _ => d }        (d is already evaluated: an operand)
@@ -895,6 +1010,114 @@ def _known_variant(rec, preds, P, y):
         return None
     # y must not be written in P before the move (P's statements are the move's block)
     return ks[0]
+
+
+def _all_defs(rec, local):
+    found = []
+    for bi, blk in enumerate(rec["blocks"]):
+        for si, st in enumerate(blk["stmts"]):
+            if st["k"] == "assign" and st["place"]["local"] == local:
+                found.append(("stmt", bi, si, st))
+        t = blk["term"]
+        if t["k"] == "call" and t["dest"]["local"] == local:
+            found.append(("call", bi, None, t))
+    return found
+
+
+def fold_try(rec, stats):
+    """`r?` where every definition of r is an in-place `Ok(..)` / `Err(..)` (the body of an inlined validation helper): the Try::branch call is
+    replaced by its definition  match r { Ok(v) => Continue(v), Err(e) => Break(Err(e)) }  so that jump threading connects each arm of the
+    helper with the caller's continuation, and a from_residual of that Break (same error type) becomes the plain `return Err(e)`."""
+    changed = False
+    for bi, blk in enumerate(rec["blocks"]):
+        t = blk["term"]
+        if t["k"] != "call" or (t.get("resolved") or t.get("callee")) != TRY_BRANCH or t.get("target") is None or t["dest"]["proj"]:
+            continue
+        a = t["args"][0]
+        if a["k"] not in ("move", "copy") or a["place"]["proj"]:
+            continue
+        x = a["place"]["local"]
+        xty = rec["locals"][x]
+        defs = _all_defs(rec, x)
+        if not defs or not all(d[0] == "stmt" and not d[3]["place"]["proj"] and d[3]["rv"]["k"] == "aggregate" and d[3]["rv"].get("vname") in ("Ok", "Err")
+                               for d in defs):
+            continue
+        if not (xty.get("k") == "adt" and len(xty.get("args") or []) == 2):
+            continue
+        okty, errty = xty["args"]
+        dty = rec["locals"][t["dest"]["local"]]
+        line = t.get("line")
+        n = len(rec["locals"])
+        isz = {"k": "int", "bits": 64, "name": "isize"}
+        resid_ty = {"k": "adt", "path": "core::result::Result", "args": [{"k": "adt", "path": "core::convert::Infallible", "args": [], "s": "core::convert::Infallible"}, errty],
+                    "s": "core::result::Result<core::convert::Infallible, E>"}
+        rec["locals"].extend([isz, resid_ty])
+        dx, tmp = n, n + 1
+        nb = len(rec["blocks"])
+        blk["stmts"] = list(blk["stmts"]) + [{"k": "assign", "place": {"local": dx, "proj": []}, "rv": {"k": "discr", "place": {"local": x, "proj": []}}, "line": line}]
+        blk["term"] = {"k": "switch", "discr": {"k": "move", "place": {"local": dx, "proj": []}}, "dty": isz, "arms": [[0, nb], [1, nb + 1]], "otherwise": nb + 2, "line": line}
+        rec["blocks"].append({"stmts": [{"k": "assign", "place": copy.deepcopy(t["dest"]),
+                                         "rv": {"k": "aggregate", "agg": "adt", "path": "core::ops::ControlFlow", "variant": 0, "vname": "Continue", "args": dty.get("args", []), "is_enum": True,
+                                                "ops": [{"k": "move", "place": {"local": x, "proj": [{"k": "downcast", "variant": 0, "name": "Ok"}, {"k": "field", "i": 0, "ty": okty}]}}]},
+                                         "line": line}], "term": {"k": "goto", "target": t["target"]}})
+        rec["blocks"].append({"stmts": [{"k": "assign", "place": {"local": tmp, "proj": []},
+                                         "rv": {"k": "aggregate", "agg": "adt", "path": "core::result::Result", "variant": 1, "vname": "Err", "args": resid_ty["args"], "is_enum": True,
+                                                "ops": [{"k": "move", "place": {"local": x, "proj": [{"k": "downcast", "variant": 1, "name": "Err"}, {"k": "field", "i": 0, "ty": errty}]}}]},
+                                         "line": line},
+                                        {"k": "assign", "place": copy.deepcopy(t["dest"]),
+                                         "rv": {"k": "aggregate", "agg": "adt", "path": "core::ops::ControlFlow", "variant": 1, "vname": "Break", "args": dty.get("args", []), "is_enum": True,
+                                                "ops": [{"k": "move", "place": {"local": tmp, "proj": []}}]}, "line": line}],
+                              "term": {"k": "goto", "target": t["target"]}})
+        rec["blocks"].append({"stmts": [], "term": {"k": "unreachable"}})
+        rec.setdefault("_folded_try", []).append((t["dest"]["local"], tmp, x, errty))
+        stats.setdefault(rec["path"], []).append("fold:try")
+        changed = True
+    return changed
+
+
+def fold_from_residual(rec, stats):
+    """from_residual(Break payload) of a `?` folded by fold_try, with the function's own error type:  _0 = Err(e)."""
+    changed = False
+    folded = rec.get("_folded_try") or []
+    if not folded:
+        return False
+    for bi, blk in enumerate(rec["blocks"]):
+        t = blk["term"]
+        if t["k"] != "call" or not (t.get("resolved") or t.get("callee") or "").endswith("FromResidual<core::result::Result<core::convert::Infallible, E>>>::from_residual"):
+            continue
+        a = t["args"][0]
+        if a["k"] != "move" or a["place"]["proj"] or t.get("target") is None:
+            continue
+        # r <- move .. <- move (d as Break).0
+        cur = a["place"]["local"]
+        src = None
+        for _ in range(4):
+            d = _single_def(rec, cur)
+            if d is None or d[0] != "stmt" or d[3]["rv"]["k"] != "use" or d[3]["rv"]["op"]["k"] not in ("move", "copy"):
+                break
+            pl = d[3]["rv"]["op"]["place"]
+            if not pl["proj"]:
+                cur = pl["local"]
+                continue
+            if [x_["k"] for x_ in pl["proj"]] == ["downcast", "field"] and pl["proj"][0].get("variant") == 1:
+                src = pl["local"]
+            break
+        hit = [f_ for f_ in folded if f_[0] == src]
+        if not hit:
+            continue
+        dlocal, tmp, x, errty = hit[0]
+        rty = rec["locals"][t["dest"]["local"]] if not t["dest"]["proj"] else None
+        if not (rty and rty.get("k") == "adt" and len(rty.get("args") or []) == 2 and rty["args"][1] == errty):
+            continue      # a converting `?` (From<E> for F): left alone
+        line = t.get("line")
+        blk["stmts"] = list(blk["stmts"]) + [{"k": "assign", "place": copy.deepcopy(t["dest"]),
+                                              "rv": {"k": "aggregate", "agg": "adt", "path": "core::result::Result", "variant": 1, "vname": "Err", "args": rty["args"], "is_enum": True,
+                                                     "ops": [{"k": "copy", "place": {"local": x, "proj": [{"k": "downcast", "variant": 1, "name": "Err"}, {"k": "field", "i": 0, "ty": errty}]}}]},
+                                              "line": line}]
+        blk["term"] = {"k": "goto", "target": t["target"]}
+        stats.setdefault(rec["path"], []).append("fold:from_residual")
+        changed = True
+    return changed
 
 
 def thread_jumps(rec, stats):
@@ -1164,9 +1387,12 @@ def apply(prog):
                 break
             touched.add(p)
     for p in list(touched):
-        for _ in range(4):
+        fold_try(recs[p], stats)
+        for _ in range(6):
             if not thread_jumps(recs[p], stats):
                 break
+        fold_from_residual(recs[p], stats)
+        recs[p].pop("_folded_try", None)
         forward_return_temp(recs[p], stats)
     for p in touched:
         prog.fns[p] = Fn(recs[p])
